@@ -408,6 +408,8 @@ def units(w):
     U.append(Unit("nodes.py::NodeReturn.evaluate", s_ret, p_ret, prepare=K.install))
 
     # ================================================================== comprehension == loop: same enumeration, filter by condition
+    # the equivalent explicit loop is  for x in c do if cond then append(result, value) end : per element the condition is
+    # evaluated first and the value expression only when the condition is TRUE
     def s_comp(with_cond):
         def setup(it):
             setup_common(it)
@@ -416,15 +418,27 @@ def units(w):
             coll = V._mk("ValueList", {"value": items}, "coll")
             it.ghost[SEEN] = EMPTY
 
-            def on_val(it_, node, env, p):
+            def bound(env):
                 ent = [e for e in env.fields["map"].entries if e[0] == "x"]
-                v = val_id(ent[0][1], V) if ent else z3.IntVal(-99)
-                it_.ghost[SEEN] = z3.Concat(it_.ghost[SEEN], z3.Unit(v))
+                return val_id(ent[0][1], V) if ent else z3.IntVal(-99)
+
+            def on_first(it_, node, env, p):
+                # the first evaluation per element (condition if there is one, else the value expression) records the element
+                it_.ghost[SEEN] = z3.Concat(it_.ghost[SEEN], z3.Unit(bound(env)))
+
+            def on_val(it_, node, env, p):
+                it_.ghost["val_saw"] = bound(env)
+                if not with_cond:
+                    on_first(it_, node, env, p)
             valn = K.node("val", on_eval=on_val)
             node = mk("NodeListComprehension", valueExpr=valn, identifier="x", listExpr=mk("NodeLiteral", value=coll), what=None,
-                      conditionExpr=K.node("cnd") if with_cond else None)
+                      conditionExpr=K.node("cnd", on_eval=on_first) if with_cond else None)
             return [node, env_obj(it, {})], {}, {"items": items.sym}
         return setup
+
+    def res_seq(it, st):
+        R = st["result"].fields["value"]
+        return R.sym if R.is_sym() else it.list_seq(R, "value")
 
     def comp_inv(with_cond):
         def inv(st):
@@ -432,41 +446,62 @@ def units(w):
             L = z3.Const("items", SEQ)
             k = zi(st.k)
             q = z3.Int("qi")
-            per = 2 if with_cond else 1
-            R = st["result"].fields["value"]
-            Rs = R.sym if R.is_sym() else it.list_seq(R, "value")
-            out = [k >= 0, it.ghost[SEEN] == z3.SubSeq(L, 0, k), z3.Length(trace(it)) == per * k, z3.Length(Rs) <= k,
-                   z3.ForAll([q], z3.Implies(z3.And(q >= 0, q < per * k), z3.Not(ERR(q))))]
+            Rs = res_seq(it, st)
+            p = z3.Length(trace(it))
+            out = [k >= 0, it.ghost[SEEN] == z3.SubSeq(L, 0, k), z3.Length(Rs) <= k,
+                   z3.ForAll([q], z3.Implies(z3.And(q >= 0, q < p), z3.Not(ERR(q))))]
             if not with_cond:
-                out.append(z3.Length(Rs) == k)
-                out.append(z3.ForAll([q], z3.Implies(z3.And(q >= 0, q < k), Rs[q] == VAL(q))))
+                out += [p == k, z3.Length(Rs) == k, z3.ForAll([q], z3.Implies(z3.And(q >= 0, q < k), Rs[q] == VAL(q)))]
+            else:
+                out += [p >= k, p <= 2 * k]
             return out
         return inv
+
+    def comp_start(st):
+        it = st.interp
+        it.ghost["p0"] = z3.Length(trace(it))
+        it.ghost["R0"] = res_seq(it, st)
+        it.ghost["tr0"] = trace(it)
+        it.ghost.pop("val_saw", None)
+
+    def comp_end(st):
+        it = st.interp
+        L = z3.Const("items", SEQ)
+        k = zi(st.k) - 1
+        p0, R0, tr0 = it.ghost["p0"], it.ghost["R0"], it.ghost["tr0"]
+        tr, Rs = trace(it), res_seq(it, st)
+        cnd, val = z3.Int("cnd"), z3.Int("val")
+        skipped = z3.And(tr == z3.Concat(tr0, z3.Unit(cnd)), KIND(VAL(p0)) == K_FALSE, Rs == R0)
+        taken = z3.And(tr == z3.Concat(tr0, z3.Unit(cnd), z3.Unit(val)), KIND(VAL(p0)) == K_TRUE, Rs == z3.Concat(R0, z3.Unit(VAL(p0 + 1))))
+        it.check("step:the-condition-is-evaluated-first-and-the-value-expression-only-when-it-is-TRUE (then exactly that value is appended)",
+                 z3.Or(skipped, taken))
+        if it.ghost.get("val_saw") is not None:
+            it.check("step:the-value-expression-sees-the-same-element-as-the-condition", it.ghost["val_saw"] == L[k])
 
     def p_comp(with_cond):
         def post(it, c, o):
             L = c["items"]
             n = z3.Length(L)
-            per = 2 if with_cond else 1
             p = z3.Length(trace(it))
             q = z3.Int("qp")
             if o.kind == "return":
                 it.check("post:returns-a-new-list", cls_name(o.value) == "ValueList")
-                it.check("post:visits-exactly-the-elements-of-the-collection-in-loop-order", z3.And(it.ghost[SEEN] == L, p == per * n))
+                it.check("post:visits-exactly-the-elements-of-the-collection-in-loop-order", it.ghost[SEEN] == L)
                 R = o.value.fields["value"]
                 Rs = R.sym if R.is_sym() else it.list_seq(R, "value")
                 if not with_cond:
-                    it.check("post:one-result-per-element-in-order", z3.And(z3.Length(Rs) == n,
+                    it.check("post:one-result-per-element-in-order", z3.And(z3.Length(Rs) == n, p == n,
                                                                             z3.ForAll([q], z3.Implies(z3.And(q >= 0, q < n), Rs[q] == VAL(q)))))
                 else:
-                    it.check("post:at-most-one-result-per-element", z3.Length(Rs) <= n)
+                    it.check("post:at-most-one-result-per-element", z3.And(z3.Length(Rs) <= n, p <= 2 * n))
             elif not errs_ok(it, o):
                 it.check("raises:non-boolean-condition-is-a-language-error", z3.And(with_cond, o.exc_class == "CklRuntimeError"))
         return post
     for wc in (False, True):
         U.append(Unit("nodes.py::NodeListComprehension.evaluate", s_comp(wc), p_comp(wc),
                       name=f"nodes.py::NodeListComprehension.evaluate[list{', if' if wc else ''}]",
-                      loops={0: Loop(comp_inv(wc), modifies=["ghost:trace", "ghost:" + SEEN, "result.value:value"], lemmas=for_lemmas)},
+                      loops={0: Loop(comp_inv(wc), modifies=["ghost:trace", "ghost:" + SEEN, "result.value:value"], lemmas=for_lemmas,
+                                     at_start=comp_start if wc else None, at_end=comp_end if wc else None)},
                       prepare=K.install, replay=replay_prog))
 
     # getCollectionValue uses the same enumeration as NodeFor for lists and sets (wiring)
@@ -533,6 +568,21 @@ def programs(tier):
             ("[[x, y] for x in [1, 2, 3] also for y in [10]]", "[[1, 10], [2, NULL], [3, NULL]]"),
             ("[x for x in [1, 2, 3, 4] if x % 2 == 0]", "[2, 4]"), ("<<x % 2 for x in [1, 2, 3]>>", "<<0, 1>>"),
             ("def r = []; for x in [1, 2] do for y in [10, 20] do append(r, x * y) end end; r", "[10, 20, 20, 40]")]
+    # every comprehension form == its explicit loop also in what it evaluates: the condition first, the value expression only
+    # for elements whose condition is TRUE (observable by side effects and by errors of the value expression)
+    pre = "def t = []; def c(x) do append(t, 'c' + string(x)); x != 0 end; def v(x) do append(t, 'v' + string(x)); 6 / x end; "
+    tr = "['c1', 'v1', 'c0', 'c2', 'v2']"
+    out += [(pre + "[[v(x) for x in [1, 0, 2] if c(x)], t]", f"[[6, 3], {tr}]"),
+            (pre + "def r = []; for x in [1, 0, 2] do if c(x) then append(r, v(x)) end; [r, t]", f"[[6, 3], {tr}]"),
+            (pre + "[<<v(x) for x in [1, 0, 2] if c(x)>>, t]", f"[<<3, 6>>, {tr}]"),
+            (pre + "[<<<x => v(x) for x in [1, 0, 2] if c(x)>>>, t]", f"[<<<1 => 6, 2 => 3>>>, {tr}]"),
+            (pre + "[[v(x) + y for x in [1, 0, 2] also for y in [10, 20, 30] if c(x)], t]", f"[[16, 33], {tr}]"),
+            (pre + "[[v(x) + y for x in [1, 0] for y in [10, 20] if c(x)], t]", "[[16, 26], ['c1', 'v1', 'c1', 'v1', 'c0', 'c0']]"),
+            (pre + "[<<v(x) + y for x in [1, 0] for y in [10, 20] if c(x)>>, t]", "[<<16, 26>>, ['c1', 'v1', 'c1', 'v1', 'c0', 'c0']]"),
+            (pre + "[<<v(x) + y for x in [1, 0, 2] also for y in [10, 20, 30] if c(x)>>, t]", f"[<<16, 33>>, {tr}]"),
+            ("[1 / x for x in [1, 0, 2] if x != 0]", "[1, 0]"), ("<<1 / x for x in <<0, 1>> if x != 0>>", "<<1>>"),
+            ("<<<x => 1 / x for x in [0, 1] if x != 0>>>", "<<<1 => 1>>>"),
+            ("do [1 / x for x in [1, 0, 2] if x >= 0] catch all 'err' end", "'err'")]
     # exits at every statement position of a 3-statement body in nested loops
     for exit_stmt in ("break", "continue", "return 99"):
         for pos in range(3):
